@@ -376,7 +376,7 @@ func (*bytesFilter).Contains
 // closure below is PROVED to be '<' on Priority, and the scan sort-by-less shows Sort is exactly sort.Slice(s, closure).
 func PrioritizedSlice.Sort
   trusted
-  ensures [ascending] forall a int, b int {s[a], s[b]} :: (0 <= a && a < b && b < len(s)) ==> s[a].Priority <= s[b].Priority
+  ensures [ascending] forall a int, b int {s[a].Priority, s[b].Priority} :: (0 <= a && a < b && b < len(s)) ==> s[a].Priority <= s[b].Priority
   modifies contents(s)
 func PrioritizedSlice.Sort$1
   requires 0 <= i && i < len(*s) && 0 <= j && j < len(*s)
